@@ -170,3 +170,53 @@ package hrpc
 //@   loop 2 invariant[C10] m.mutationType != 3 ==> dt == nil
 //@   loop 2 invariant[C10] m.mutationType == 3 ==> dt != nil && *dt == pbDeleteKind(len(m.values[k]) == 0, m.deleteOneVersion)
 //@   loop 2 invariant[C10] v == ite(m.mutationType == 3 && m.values[k] == nil, emptyQualifier, m.values[k])
+
+// ---- RegionInfo as seen by the client (assumed of every implementation; region.info is checked against it) ----
+// Ghost unavail[reg] = 1 while the region is marked unavailable (its availability channel exists).
+// token[reg] = 1: the caller has just created the mark and has not yet handed the region to an establisher
+//@ func hrpc.RegionInfo.MarkUnavailable() (r)
+//@   modifies X.unavail, X.token
+//@   ensures r == (old(ghostat("unavail", recv)) == 0) && ghostat("unavail", recv) == 1
+//@   ensures r ==> ghostat("token", recv) == 1
+//@   ensures !r ==> ghostat("token", recv) == old(ghostat("token", recv))
+//@   ensures forall(k, k != recv ==> ghostat("token", k) == old(ghostat("token", k)))
+//@   ensures forall(k, k != recv ==> ghostat("unavail", k) == old(ghostat("unavail", k)))
+// MarkAvailable closes the availability channel: calling it on a region that is not marked unavailable panics
+//@ func hrpc.RegionInfo.MarkAvailable()
+//@   requires ghostat("unavail", recv) == 1
+//@   modifies X.unavail, X.nrel
+//@   ensures ghostat("unavail", recv) == 0 && ghostat("nrel", recv) == old(ghostat("nrel", recv)) + 1
+//@   ensures forall(k, k != recv ==> ghostat("nrel", k) == old(ghostat("nrel", k)))
+//@   ensures forall(k, k != recv ==> ghostat("unavail", k) == old(ghostat("unavail", k)))
+//@ func hrpc.RegionInfo.Context() (r)
+//@   pure
+//@ func hrpc.RegionInfo.Name() (r)
+//@   pure
+//@ func hrpc.RegionInfo.StartKey() (r)
+//@   pure
+//@ func hrpc.RegionInfo.StopKey() (r)
+//@   pure
+//@ func hrpc.RegionInfo.Table() (r)
+//@   pure
+//@ func hrpc.RegionInfo.Namespace() (r)
+//@   pure
+//@ func hrpc.RegionInfo.ID() (r)
+//@   pure
+//@ func hrpc.RegionInfo.String() (r)
+//@   pure
+//@ func hrpc.RegionInfo.Client() (r)
+//@   modifies nothing
+//@   ensures r == ghostat("regclient", recv)
+//@ func hrpc.RegionInfo.SetClient(c)
+//@   modifies X.regclient
+//@   ensures ghostat("regclient", recv) == c
+//@   ensures forall(k, k != recv ==> ghostat("regclient", k) == old(ghostat("regclient", k)))
+//@ func hrpc.RegionInfo.MarkDead()
+//@   modifies X.ctxdone
+//@   ensures ghostat("ctxdone", recv.Context()) == 1
+//@   ensures forall(k, old(ghostat("ctxdone", k)) == 1 ==> ghostat("ctxdone", k) == 1)
+//@ func hrpc.RegionClient.Dial(ctx) (err)
+//@   modifies X.dials, X.ctxdone
+
+//@ func hrpc.Batchable.SkipBatch() (r)
+//@   pure
